@@ -246,7 +246,7 @@ func execC10(c C10Case) *Failure {
 		where := fmt.Sprintf("%s call %d (%d notifications emitted, handlers %v, %d concurrent calls)", c.Mode, ci, len(call.Notifs), c.Handlers, len(c.Calls))
 		if results[ci].err != nil {
 			f := Failf("C10/result-lost", "%s: CallTool failed: %v", where, results[ci].err)
-			f.Timing = strings.Contains(results[ci].err.Error(), "deadline")
+			f.Timing = isTimeoutText(results[ci].err.Error())
 			return f
 		}
 		if results[ci].text != fmt.Sprintf("done-%d", ci) {
